@@ -835,6 +835,28 @@ func c39Tool(t *testing.T, c *ev.Collector, kp *keyPool) {
 	c.Oracle("ssh-keygen (OpenSSH): generates the key files; -y reads MarshalPrivateKey output; -Y sign / -Y check-novalidate use the keys")
 }
 
+// c39MarshalAlignment: PROTOCOL.key pads the private section to the cipher
+// block size (16 for the AES modes MarshalPrivateKeyWithPassphrase uses); nine
+// consecutive comment lengths cover every residue class of the padding.
+func c39MarshalAlignment(t *testing.T, c *ev.Collector, kp *keyPool) {
+	if k, _ := ev.Shard(); k != 0 {
+		return
+	}
+	key := kp.byType[rk.TEd25519][0]
+	for n := 0; n < 9; n++ {
+		blk, err := ssh.MarshalPrivateKeyWithPassphrase(key.cryptoPriv(), strings.Repeat("c", n), []byte("alignment"))
+		if err != nil {
+			c39Violation(t, c, "MarshalPrivateKeyWithPassphrase failed: %v", err)
+		}
+		cn, kdf, sl, perr := rk.PrivSectionInfo(blk.Bytes)
+		if perr != nil || cn == "none" || kdf != "bcrypt" || sl < 16 || sl%16 != 0 {
+			c39Violation(t, c, "MarshalPrivateKeyWithPassphrase (comment length %d) wrote cipher %q kdf %q with a %d-byte private section (%v): PROTOCOL.key requires padding to the cipher block size, OpenSSH rejects the file", n, cn, kdf, sl, perr)
+		}
+		c.Case(true, fmt.Sprintf("align|%d", n%16), "file:marshal-alignment")
+	}
+	c.Exhaustive("MarshalPrivateKeyWithPassphrase x 9 consecutive comment lengths (block alignment)", 9)
+}
+
 func TestC39(t *testing.T) {
 	c := ev.New("C39", "non-trivial: the file was written by ssh-keygen, or handed to ssh-keygen, or is a constructed file with an inconsistency/corruption or encryption; distinct = (source, key type, anomaly, cipher, result)")
 	defer c.Flush(t)
@@ -845,6 +867,7 @@ func TestC39(t *testing.T) {
 		t.Fatal(err)
 	}
 	kp := pool()
+	c39MarshalAlignment(t, c, kp)
 	c39Tool(t, c, kp)
 	rapid.Check(t, func(rt *rapid.T) {
 		if rapid.IntRange(0, 9).Draw(rt, "mode") == 0 {
